@@ -1,5 +1,4 @@
-import TbotVerif.Props.C08Eff
-import TbotVerif.Props.C08Text
+import TbotVerif.Props.C08Vis
 /-! C08 — the Spec's monitor (`Spec.c08`) run along the model: the invariant `Inv` links the
     monitor's record of the open attachment (`r`, `fw` as text) to the model's forwarded bytes and
     hold-back buffer (`HB`); `step` is one operation, `fold_inv` a whole operation sequence. -/
@@ -151,36 +150,46 @@ def upd (a : Att) (cfg : Cfg) (op : Op) (o : OpObs) : Att :=
                a.prompt == (match op with | .rup (some p) _ => some (Chan.anchor p) | _ => cfg.prompt))) }
 
 def isStreamOp : Op → Bool
-  | .streamEnter _ _ | .streamExit => true
+  | .streamEnter _ _ | .streamExit | .streamExitAt _ => true
   | _ => false
 
-theorem c08_closed_other (cfg : Cfg) (op : Op) (o : OpObs) (h : isStreamOp op = false) (hf : o.fwd = []) :
-    c08 {} cfg op o = (true, {}) := by
-  cases op <;> first | (simp [isStreamOp] at h; done) | simp [c08, hf]
+theorem visOk_nil (v : Bool) (o : OpObs) : visOk v [] o = true := by
+  cases v <;> rfl
 
-theorem c08_closed_exit (cfg : Cfg) (o : OpObs) (hf : o.fwd = []) : c08 {} cfg .streamExit o = (true, {}) := by
-  simp [c08, hf]
+theorem c08_closed_other (v : Bool) (cfg : Cfg) (op : Op) (o : OpObs) (h : isStreamOp op = false) (hf : o.fwd = []) :
+    c08 { atts := [], vis := v } cfg op o = (true, { atts := [], vis := v }) := by
+  cases op <;> first | (simp [isStreamOp] at h; done) | simp [c08, hf, visOk_nil]
 
-theorem c08_closed_enter (cfg : Cfg) (id : Nat) (sp : Bool) (o : OpObs) (hf : o.fwd = []) :
-    c08 {} cfg (.streamEnter id sp) o = (true, { atts := [{ id := id, showPrompt := sp, prompt := cfg.prompt }] }) := by
-  simp [c08, hf]
+theorem c08_closed_exit (v : Bool) (cfg : Cfg) (o : OpObs) (hf : o.fwd = []) :
+    c08 { atts := [], vis := v } cfg .streamExit o = (true, { atts := [], vis := v }) := by
+  simp [c08, hf, visOk_nil]
 
-theorem c08_open_other (a : Att) (cfg : Cfg) (op : Op) (o : OpObs) (h : isStreamOp op = false) :
-    c08 { atts := [a] } cfg op o
-      = ((o.fwd.all fun f => a.id == f.1) && attOk (upd a cfg op o), { atts := [upd a cfg op o] }) := by
+theorem c08_closed_enter (v : Bool) (cfg : Cfg) (id : Nat) (sp : Bool) (o : OpObs) (hf : o.fwd = []) :
+    c08 { atts := [], vis := v } cfg (.streamEnter id sp) o
+      = (true, { atts := [{ id := id, showPrompt := sp, prompt := cfg.prompt }], vis := v && sp }) := by
+  simp [c08, hf, visOk_nil]
+
+theorem c08_open_other (v : Bool) (a : Att) (cfg : Cfg) (op : Op) (o : OpObs) (h : isStreamOp op = false) :
+    c08 { atts := [a], vis := v } cfg op o
+      = ((o.fwd.all fun f => a.id == f.1) && attOk (upd a cfg op o) && visOk v [upd a cfg op o] o,
+         { atts := [upd a cfg op o], vis := v }) := by
   cases op <;> first | (simp [isStreamOp] at h; done) | (simp [c08, upd]; done) | (rename_i p t; cases p <;> simp [c08, upd])
 
-theorem c08_open_exit (a : Att) (cfg : Cfg) (o : OpObs) :
-    c08 { atts := [a] } cfg .streamExit o
-      = ((o.fwd.all fun f => a.id == f.1) && attOk (upd a cfg .streamExit o)
-          && ((upd a cfg .streamExit o).prompt != cfg.prompt || detachOk (upd a cfg .streamExit o)), {}) := by
+theorem c08_open_exit (v : Bool) (a : Att) (cfg : Cfg) (o : OpObs) :
+    c08 { atts := [a], vis := v } cfg .streamExit o
+      = ((o.fwd.all fun f => a.id == f.1) && attOk (upd a cfg .streamExit o) && visOk v [upd a cfg .streamExit o] o
+          && ((upd a cfg .streamExit o).prompt != cfg.prompt || detachOk (upd a cfg .streamExit o)),
+         { atts := [], vis := v }) := by
   simp [c08, upd]
 
 
 /-! ### hypotheses on the operation sequence -/
 
+/-- (a detach that names its stream, `streamExitAt`, belongs to overlapping attachments: those cases are the
+    subject of `C08OverlapAttach.lean`, here they are excluded) -/
 def nestOk (o : Bool) : Op → Bool
   | .streamEnter _ _ => !o
+  | .streamExitAt _ => false
   | _ => true
 
 def nestNext (o : Bool) : Op → Bool
@@ -240,13 +249,13 @@ theorem HB_cast {lp : Bool} {p p' : Option Pat} {fw sb R : Bytes} (h : HB lp p f
 
 /-- monitor state vs. model state between two operations -/
 inductive Inv : StreamMon → RunSt → Prop
-  | closed (r : RunSt) (hf : r.streams = []) (hs : r.st.streams = []) (hb : r.st.streambuf = [])
-      (hp : PromptsOk r) : Inv {} r
-  | opened (a : Att) (r : RunSt) (prev : Bool) (fw : Bytes)
+  | closed (v : Bool) (r : RunSt) (hf : r.streams = []) (hs : r.st.streams = []) (hb : r.st.streambuf = [])
+      (hp : PromptsOk r) : Inv { atts := [], vis := v } r
+  | opened (v : Bool) (a : Att) (r : RunSt) (prev : Bool) (fw : Bytes)
       (hf : r.streams = [(a.id, prev)]) (hs : r.st.streams = [a.id]) (hlp : r.st.logPrompt = a.showPrompt)
       (hpr : a.showPrompt = false → r.st.prompt = a.prompt)
       (ht : asciiT a.fw = asciiB fw) (hb : HB a.showPrompt a.prompt fw r.st.streambuf a.r)
-      (hp : PromptsOk r) : Inv { atts := [a] } r
+      (hp : PromptsOk r) (hv : v = true → a.showPrompt = true) : Inv { atts := [a], vis := v } r
 
 def isOpen (m : StreamMon) : Bool := !m.atts.isEmpty
 def isSup (m : StreamMon) : Bool := m.atts.any fun a => !a.showPrompt
@@ -350,7 +359,8 @@ theorem attached_ok (a : Att) (op : Op) (r : RunSt) (hids : ∀ e ∈ (obsOp op 
   exact beq_self_eq_true _
 
 /-- an operation other than attach/detach while one attachment is open -/
-theorem step_open_other (a : Att) (r : RunSt) (prev : Bool) (fw : Bytes) (op : Op) (hso : isStreamOp op = false)
+theorem step_open_other (v : Bool) (a : Att) (r : RunSt) (prev : Bool) (fw : Bytes) (op : Op) (hso : isStreamOp op = false)
+    (hv : v = true → a.showPrompt = true)
     (hf : r.streams = [(a.id, prev)]) (ht : asciiT a.fw = asciiB fw)
     (F1 : (obsOp op r).2.streams = r.streams) (F2 : (obsOp op r).2.st.streams = [a.id])
     (F3 : (obsOp op r).2.st.logPrompt = a.showPrompt)
@@ -358,18 +368,21 @@ theorem step_open_other (a : Att) (r : RunSt) (prev : Bool) (fw : Bytes) (op : O
     (F5 : ∀ e ∈ (obsOp op r).2.st.fwd, e.1 = a.id)
     (F6 : HB a.showPrompt a.prompt (fw ++ bytesOf (obsOp op r).2.st.fwd) (obsOp op r).2.st.streambuf
             (a.r ++ (delivered (obsOp op r).1).flatten))
-    (F7 : PromptsOk (obsOp op r).2) :
-    (c08 { atts := [a] } (Cfg.ofRun r) op (obsOp op r).1).1 = true
-    ∧ Inv (c08 { atts := [a] } (Cfg.ofRun r) op (obsOp op r).1).2 (obsOp op r).2
-    ∧ isOpen (c08 { atts := [a] } (Cfg.ofRun r) op (obsOp op r).1).2 = nestNext (isOpen { atts := [a] }) op
-    ∧ isSup (c08 { atts := [a] } (Cfg.ofRun r) op (obsOp op r).1).2 = supNext (isSup { atts := [a] }) op := by
-  rw [c08_open_other _ _ _ _ hso, nestNext_other _ _ hso, supNext_other _ _ hso]
+    (F7 : PromptsOk (obsOp op r).2)
+    (F8 : v = true → fwdFor a.id (obsOp op r).1.fwd = visText (delivered (obsOp op r).1)) :
+    (c08 { atts := [a], vis := v } (Cfg.ofRun r) op (obsOp op r).1).1 = true
+    ∧ Inv (c08 { atts := [a], vis := v } (Cfg.ofRun r) op (obsOp op r).1).2 (obsOp op r).2
+    ∧ isOpen (c08 { atts := [a], vis := v } (Cfg.ofRun r) op (obsOp op r).1).2 = nestNext (isOpen { atts := [a], vis := v }) op
+    ∧ isSup (c08 { atts := [a], vis := v } (Cfg.ofRun r) op (obsOp op r).1).2 = supNext (isSup { atts := [a], vis := v }) op := by
+  rw [c08_open_other _ _ _ _ _ hso, nestNext_other _ _ hso, supNext_other _ _ hso]
+  have hvis : visOk v [upd a (Cfg.ofRun r) op (obsOp op r).1] (obsOp op r).1 = true :=
+    visOk_single v _ _ F8
   have ht' := upd_text a (Cfg.ofRun r) op r fw ht F5
   have hatt : attOk (upd a (Cfg.ofRun r) op (obsOp op r).1) = true :=
     attOk_of_HB (upd a (Cfg.ofRun r) op (obsOp op r).1) _ _ ht' F6
   refine ⟨?_, ?_, rfl, rfl⟩
-  · simp only [attached_ok a op r F5, hatt, Bool.and_self]
-  · exact Inv.opened (upd a (Cfg.ofRun r) op (obsOp op r).1) (obsOp op r).2 prev _ (F1.trans hf) F2 F3 F4 ht' F6 F7
+  · simp only [attached_ok a op r F5, hatt, hvis, Bool.and_self]
+  · exact Inv.opened v (upd a (Cfg.ofRun r) op (obsOp op r).1) (obsOp op r).2 prev _ (F1.trans hf) F2 F3 F4 ht' F6 F7 hv
 
 theorem bytesOf_nil : bytesOf [] = [] := rfl
 
@@ -382,7 +395,7 @@ theorem step (m : StreamMon) (r : RunSt) (op : Op) (hinv : Inv m r)
     ∧ isOpen (c08 m (Cfg.ofRun r) op (obsOp op r).1).2 = nestNext (isOpen m) op
     ∧ isSup (c08 m (Cfg.ofRun r) op (obsOp op r).1).2 = supNext (isSup m) op := by
   cases hinv with
-  | closed r hf hs hb hp =>
+  | closed v r hf hs hb hp =>
     cases hso : isStreamOp op with
     | false =>
       -- nothing is attached: nothing is forwarded, the hold-back buffer stays empty
@@ -400,16 +413,16 @@ theorem step (m : StreamMon) (r : RunSt) (op : Op) (hinv : Inv m r)
           exact ⟨h1.trans hf, h2.trans hs, h3.trans hb, h5, h7⟩
       obtain ⟨g1, g2, g3, g4, g5⟩ := facts
       have hfwd : (obsOp op r).1.fwd = [] := by rw [obsOp_fwd, g4]; rfl
-      rw [c08_closed_other _ _ _ hso hfwd, nestNext_other _ _ hso, supNext_other _ _ hso]
-      exact ⟨rfl, Inv.closed _ g1 g2 g3 g5, rfl, rfl⟩
+      rw [c08_closed_other _ _ _ _ hso hfwd, nestNext_other _ _ hso, supNext_other _ _ hso]
+      exact ⟨rfl, Inv.closed v _ g1 g2 g3 g5, rfl, rfl⟩
     | true =>
       cases op with
       | streamEnter id sp =>
         have hfwd : (obsOp (.streamEnter id sp) r).1.fwd = [] := rfl
-        rw [c08_closed_enter _ _ _ _ hfwd]
+        rw [c08_closed_enter _ _ _ _ _ hfwd]
         refine ⟨rfl, ?_, rfl, by simp [isSup, supNext]⟩
-        refine Inv.opened { id := id, showPrompt := sp, prompt := (Cfg.ofRun r).prompt } _ r.st.logPrompt [] ?_ ?_ rfl
-          (fun _ => rfl) rfl ?_ ⟨hp.cur, hp.stack⟩
+        refine Inv.opened (v && sp) { id := id, showPrompt := sp, prompt := (Cfg.ofRun r).prompt } _ r.st.logPrompt [] ?_ ?_ rfl
+          (fun _ => rfl) rfl ?_ ⟨hp.cur, hp.stack⟩ (fun h => (Bool.and_eq_true_iff.mp h).2)
         · show (id, r.st.logPrompt) :: r.streams = _
           rw [hf]
         · show r.st.streams ++ [id] = _
@@ -420,16 +433,18 @@ theorem step (m : StreamMon) (r : RunSt) (op : Op) (hinv : Inv m r)
         have h2 : (obsOp .streamExit r).2 = { r with st := cut r.st } := by
           rw [obsOp_snd]; simp [runOp, hf]
         have hfwd : (obsOp .streamExit r).1.fwd = [] := by rw [obsOp_fwd, h2]; rfl
-        rw [c08_closed_exit _ _ hfwd, h2]
-        exact ⟨rfl, Inv.closed _ hf hs hb ⟨hp.cur, hp.stack⟩, rfl, rfl⟩
+        rw [c08_closed_exit _ _ _ hfwd, h2]
+        exact ⟨rfl, Inv.closed v _ hf hs hb ⟨hp.cur, hp.stack⟩, rfl, rfl⟩
+      | streamExitAt k => simp [nestOk] at hn
       | _ => simp [isStreamOp] at hso
-  | opened a r prev fw hf hs hlp hpr ht hb hp =>
+  | opened v a r prev fw hf hs hlp hpr ht hb hp hv =>
+    have hlpv : v = true → r.st.logPrompt = true := fun h => hlp.trans (hv h)
     -- the invariant in terms of the state's own mode and prompt
     have hbs : HB r.st.logPrompt r.st.prompt fw r.st.streambuf a.r := by
       rw [hlp]; exact HB_cast hb hpr
     have hsup : a.showPrompt = false → changesPrompt op = false := by
       intro h
-      have : isSup { atts := [a] } = true := by simp [isSup, h]
+      have : isSup { atts := [a], vis := v } = true := by simp [isSup, h]
       rw [this] at hq
       simpa [quietOk] using hq
     cases hso : isStreamOp op with
@@ -438,10 +453,14 @@ theorem step (m : StreamMon) (r : RunSt) (op : Op) (hinv : Inv m r)
       | true =>
         have he := eff r op hrd
         obtain ⟨h1, h2, h3, h4, h5⟩ := he.opened a.id hs fw a.r (fun h => hsup (by rw [← hlp]; exact h)) hbs
-        refine step_open_other a r prev fw op hso hf ht he.streams h1 (h2.trans hlp)
-          (fun h => h3.trans (hpr h)) h4 ?_ ⟨by rw [h3]; exact hp.cur, by rw [he.prompts]; exact hp.stack⟩
-        rw [hlp] at h5
-        exact HB_cast h5 (fun h => (hpr h).symm)
+        refine step_open_other v a r prev fw op hso hv hf ht he.streams h1 (h2.trans hlp)
+          (fun h => h3.trans (hpr h)) h4 ?_ ⟨by rw [h3]; exact hp.cur, by rw [he.prompts]; exact hp.stack⟩ ?_
+        · rw [hlp] at h5
+          exact HB_cast h5 (fun h => (hpr h).symm)
+        · intro hvt
+          have hvis := (he.vis (hlpv hvt)).1
+          rw [obsOp_fwd, hvis, hs, fwdFor_visFwd a.id [a.id] _ (by simp)]
+          simp
       | false =>
         -- the prompt changes: only allowed while nothing is suppressed
         have hshow : a.showPrompt = true := by
@@ -450,13 +469,17 @@ theorem step (m : StreamMon) (r : RunSt) (op : Op) (hinv : Inv m r)
           | false => have := hsup h; rw [changesPrompt_of_cfg op hrd hso] at this; simp at this
         obtain ⟨h1, h2, h3, h4, h5, h6, h7⟩ := cfg_op r op hrd hso hp
         have hdel : delivered (obsOp op r).1 = [] := by rw [obsOp_delivered, h6]; rfl
-        refine step_open_other a r prev fw op hso hf ht h1 (h2.trans hs) (h4.trans hlp)
-          (fun h => by rw [hshow] at h; simp at h) (by rw [h5]; simp) ?_ h7
-        rw [h5, h3, hdel, bytesOf_nil, List.append_nil, List.flatten_nil, List.append_nil]
-        exact hb
+        refine step_open_other v a r prev fw op hso hv hf ht h1 (h2.trans hs) (h4.trans hlp)
+          (fun h => by rw [hshow] at h; simp at h) (by rw [h5]; simp) ?_ h7 ?_
+        · rw [h5, h3, hdel, bytesOf_nil, List.append_nil, List.flatten_nil, List.append_nil]
+          exact hb
+        · intro _
+          rw [obsOp_fwd, h5, hdel]
+          rfl
     | true =>
       cases op with
       | streamEnter id sp => simp [nestOk, isOpen] at hn
+      | streamExitAt k => simp [nestOk] at hn
       | streamExit =>
         have h2 : (obsOp .streamExit r).2 = { r with st := Chan.streamExit a.id prev (cut r.st), streams := [] } := by
           rw [obsOp_snd]; simp [runOp, hf]
@@ -464,8 +487,10 @@ theorem step (m : StreamMon) (r : RunSt) (op : Op) (hinv : Inv m r)
         have hfwd2 : (obsOp .streamExit r).2.st.fwd = exitFlush (cut r.st) := by rw [h2]; rfl
         have hids : ∀ e ∈ (obsOp .streamExit r).2.st.fwd, e.1 = a.id := by
           rw [hfwd2]; exact exitFlush_ids (cut r.st) a.id hs'
-        have hdel : (delivered (obsOp .streamExit r).1).flatten = [] := by
+        have hdel0 : delivered (obsOp .streamExit r).1 = [] := by
           rw [obsOp_delivered, h2]; rfl
+        have hdel : (delivered (obsOp .streamExit r).1).flatten = [] := by
+          rw [hdel0]; rfl
         have ht' := upd_text a (Cfg.ofRun r) .streamExit r fw ht hids
         rw [hfwd2] at ht'
         have hr' : (upd a (Cfg.ofRun r) .streamExit (obsOp .streamExit r).1).r = a.r := by
@@ -523,11 +548,17 @@ theorem step (m : StreamMon) (r : RunSt) (op : Op) (hinv : Inv m r)
             obtain ⟨r1, rfl⟩ := hp.cur r0 ((hpr h').trans hpre')
             rw [h', hpre'] at hb
             exact (exit_regex (cut r.st) a.id r1 fw a.r hs' (hlp.trans h') ((hpr h').trans hpre') hb).2 n e hsearch
+        have hvis : visOk v [upd a (Cfg.ofRun r) .streamExit (obsOp .streamExit r).1] (obsOp .streamExit r).1 = true := by
+          refine visOk_single v _ _ ?_
+          intro hvt
+          rw [obsOp_fwd, hfwd2, hnil (Or.inl (hv hvt)), hdel0]
+          rfl
+        have hatd := attached_ok a .streamExit r hids
         rw [c08_open_exit, h2]
         refine ⟨?_, ?_, rfl, rfl⟩
-        · have := attached_ok a .streamExit r hids
-          simp only [this, hatt, hdet, Bool.or_true, Bool.and_self]
-        · refine Inv.closed _ rfl ?_ ?_ ⟨hp.cur, hp.stack⟩
+        · have := hatd
+          simp only [this, hatt, hdet, hvis, Bool.or_true, Bool.and_self]
+        · refine Inv.closed v _ rfl ?_ ?_ ⟨hp.cur, hp.stack⟩
           · show (cut r.st).streams.erase a.id = []
             rw [hs']; simp
           · exact exitKeep_nil (cut r.st) fw a.r hbc
